@@ -554,7 +554,7 @@ def run(ctx):
     # ---- model correspondence --------------------------------------------------------------
     # the model is evaluated on a stratified seeded subsample (every case went through the oracle above):
     # at least two cases per (class, mutation kind), then random fill up to the cap
-    cap = 2400 if ctx.thorough else 800
+    cap = 2400 if ctx.thorough else 600
     if len(vcases) > cap:
         strata = {}
         for c in vcases:
